@@ -5,6 +5,7 @@
 (*                    obs[j] = what was seen after ops[j]: panic of the operation, its error flag,  *)
 (*                    panic of a selection, a window of selections (host; 0 = error; -1 = alien)    *)
 (*   wrecs.ndjson   : BuildStaticWeightList records            {w, t, ord, out, p}                 *)
+(* Records with s = "mgr" are histories of the endpoint manager (scripts from Gen_Mgr): see MgrJudge.  *)
 (* The member list is computed by the specification's own operators (Dedup/AddM/RemoveM); the       *)
 (* observation is judged at two levels:                                                             *)
 (*   P - what property C13 states (membership, error iff none eligible, rotation, weighted cycle,   *)
@@ -86,8 +87,58 @@ Judge(rec) ==
      ELSE IF Len(rec.obs) = 0 \/ Len(rec.obs) > Len(ops) THEN <<1, "malformed", 0, "ok">>
      ELSE IF Len(rec.obs) < Len(ops) /\ rec.obs[Len(rec.obs)].p = "" /\ rec.obs[Len(rec.obs)].sp = "" THEN <<Len(rec.obs) + 1, "malformed", 0, "ok">>
      ELSE Walk(Strat(rec.s), rec.wt, ops, rec.obs, 1, <<>>, <<0, "ok">>)
+
+\* ---- histories of the endpoint manager (records with s = "mgr"; scripts from Gen_Mgr: K(list) the registry names these
+\* endpoints, B(h) the status check blocks h, V(h) a probe brings h back).  The manager installs a new list into fresh
+\* selectors when the registry names another SET than before -- that list is taken from the manager's own account of
+\* its current set (o.act, in its order; the registry's weights) --, a reply naming the same set changes nothing, B is
+\* Remove and V is Add on the member list.  The windows of plain calls are judged like any round-robin observation
+\* (level P).  Level R (observations): the manager's account differs from "named minus blocked"; rotation order.
+HostSetOf(l) == {l[i].h : i \in 1..Len(l)}
+EpIn(l, h) == IF \E i \in 1..Len(l) : l[i].h = h THEN l[CHOOSE i \in 1..Len(l) : l[i].h = h] ELSE [h |-> h, w |-> 0, t |-> 0]
+Reported(reply, act) == [i \in 1..Len(act) |-> EpIn(reply, act[i])]
+MgrRot(wt, m, sel, cy, per) ==
+  IF per > 0 /\ ~(\E c \in 0..(per - 1) : \A j \in 1..Len(sel) : sel[j] \in SelectSet("rr", wt, m, cy, c + j - 1, 0))
+  THEN "rotation-order" ELSE "ok"
+MgrRotC(wt, m, sel, cy) == MgrRot(wt, m, sel, cy, PeriodOf("rr", wt, m, cy))    \* (the cycle is computed once)
+MgrR(wt, m, o, expect) ==
+  IF {o.act[i] : i \in 1..Len(o.act)} # expect THEN "manager-set-not-named-minus-blocked"
+  ELSE IF ~RFull /\ UsesCycle("rr", wt, m) THEN "ok"
+  ELSE MgrRotC(wt, m, o.sel, CycleOf("rr", wt, m))
+MgrMembers(m, named, reply, op, o) ==
+  IF op.o = "K" THEN (IF HostSetOf(op.l) # named THEN Dedup(Reported(ListOf(op), o.act)) ELSE m)
+  ELSE IF op.o = "B" THEN RemoveM(m, EpIn(reply, op.h))
+  ELSE AddM(m, EpIn(reply, op.h))
+MgrNamed(named, op) == IF op.o = "K" THEN HostSetOf(op.l) ELSE named
+MgrBlocked(blocked, op) == IF op.o = "K" THEN blocked \cap HostSetOf(op.l)
+                           ELSE IF op.o = "B" THEN blocked \cup {op.h} ELSE blocked \ {op.h}
+ActSet(o) == {o.act[i] : i \in 1..Len(o.act)}
+\* The member list the windows are held to is the manager's own account of its current set: where the list derived
+\* from the history has another host set (the manager changed its set without an operation of the history, or kept
+\* an endpoint the history took out), the account replaces it and the difference is an observation of level R.
+MgrHeld(mh, reply, o) == IF HostsOf(mh) = ActSet(o) THEN mh ELSE Dedup(Reported(reply, o.act))
+RECURSIVE MWalk(_, _, _, _, _, _, _, _, _)
+MWalk(wt, ops, obs, j, m, named, blocked, reply, r) ==
+  IF j > Len(obs) THEN <<0, "ok", r[1], r[2]>>
+  ELSE LET reply2 == IF ops[j].o = "K" THEN ListOf(ops[j]) ELSE reply
+           mh == MgrMembers(m, named, reply, ops[j], obs[j])
+           m2 == MgrHeld(mh, reply2, obs[j])
+           n2 == MgrNamed(named, ops[j])
+           b2 == MgrBlocked(blocked, ops[j])
+           pc == PClass("rr", wt, m2, obs[j])
+       IN IF pc # "ok" THEN <<j, pc, r[1], r[2]>>
+          ELSE LET rc == IF r[1] # 0 THEN "ok"
+                         ELSE IF HostsOf(mh) # ActSet(obs[j]) THEN "manager-set-not-what-the-history-gives"
+                         ELSE MgrR(wt, m2, obs[j], n2 \ b2)
+               IN MWalk(wt, ops, obs, j + 1, m2, n2, b2, reply2, IF rc = "ok" THEN r ELSE <<j, rc>>)
+\* (a history the driver could not carry out to its end is judged as far as it got)
+MgrJudge(rec, ops) ==
+  IF rec.hang THEN <<Len(rec.obs) + 1, "hang", 0, "ok">>
+  ELSE IF Len(rec.obs) > Len(ops) THEN <<1, "malformed", 0, "ok">>
+  ELSE MWalk(rec.wt, ops, rec.obs, 1, <<>>, {}, {}, <<>>, <<0, "ok">>)
+
 OkRes == <<0, "ok", 0, "ok">>
-Verdicts == {<<i, Judge(Obs[i])>> : i \in 1..Len(Obs)}
+Verdicts == {<<i, IF Obs[i].s = "mgr" THEN MgrJudge(Obs[i], Scripts[Obs[i].i + 1].ops) ELSE Judge(Obs[i])>> : i \in 1..Len(Obs)}
 NotOk == {v \in Verdicts : v[2] # OkRes}
 
 \* ---- B3: the weight builder
